@@ -499,7 +499,7 @@ class TypesOracle(walkers.DagWalker):
         return expanded
 
     @walkers.handles(set(op.ALL_TYPES) - \
-                     set([op.SYMBOL, op.FUNCTION]) -\
+                     set([op.SYMBOL, op.FUNCTION, op.ARRAY_VALUE]) -\
                      op.QUANTIFIERS - op.CONSTANTS)
     def walk_combine(self, formula: FNode, args: List[FrozenSet[PySMTType]], **kwargs) -> FrozenSet[PySMTType]:
         #pylint: disable=unused-argument
@@ -513,6 +513,11 @@ class TypesOracle(walkers.DagWalker):
     def walk_function(self, formula: FNode, args: List[FrozenSet[PySMTType]], **kwargs) -> FrozenSet[PySMTType]:
         ftype = cast(types._FunctionType, formula.function_name().symbol_type())
         return frozenset(chain([ftype.return_type], ftype.param_types, *args))
+
+    @walkers.handles(op.ARRAY_VALUE)
+    def walk_array_value(self, formula: FNode, args: List[FrozenSet[PySMTType]], **kwargs) -> FrozenSet[PySMTType]:
+        # The index type is stored in the node, not in the children
+        return frozenset(chain([formula.array_value_index_type()], *args))
 
     @walkers.handles(op.QUANTIFIERS)
     def walk_quantifier(self, formula: FNode, args: List[FrozenSet[PySMTType]], **kwargs) -> FrozenSet[PySMTType]:
